@@ -45,6 +45,7 @@ func ResetGlobals() {
 	restful.DefaultRequestContentType("")
 	restful.TrimRightSlashEnabled = true
 	restful.SetCompressorProvider(defaultProvider)
+	restful.DefaultContainer = restful.NewContainer()
 }
 
 var defaultProvider = restful.CurrentCompressorProvider()
@@ -108,8 +109,11 @@ type Options struct {
 	Router           string // model.Curly or model.JSR311
 	ContainerFilters int    // number of recording pass-through container filters
 	OptionsFilter    bool   // install Container.OPTIONSFilter as first container filter
-	Encoding         bool
-	Recover          bool
+	// AsDefault makes the container the package's DefaultContainer (and installs the OPTIONS
+	// filter through the package function restful.OPTIONSFilter())
+	AsDefault bool
+	Encoding  bool
+	Recover   bool
 	// SwapRouterFirst installs the other router first and then the intended one (a
 	// configuration history: nothing of the replaced router may stay behind).
 	SwapRouterFirst bool
@@ -254,8 +258,15 @@ func Build(t model.TableSpec, opt *Options, rec *Recorder, h RouteHandler) (c *r
 	if opt.Setup != nil {
 		opt.Setup(c)
 	}
+	if opt.AsDefault {
+		restful.DefaultContainer = c
+	}
 	if opt.OptionsFilter {
-		c.Filter(c.OPTIONSFilter)
+		if opt.AsDefault {
+			c.Filter(restful.OPTIONSFilter())
+		} else {
+			c.Filter(c.OPTIONSFilter)
+		}
 	}
 	for i := 0; i < opt.ContainerFilters; i++ {
 		kind := "cf" + strconv.Itoa(i)
